@@ -128,6 +128,8 @@ def update_obligations(ctx: Ctx) -> None:
             if d is not None and d[0] == "items":
                 its.append(d[1])
         want = [d1, d2] + ([kw] if kw_truthy == 0 else [])
+        if kw_truthy is None and len(its) == 3 and its[2] is kw:
+            want = [d1, d2, kw]      # keywords walked unconditionally (an empty mapping contributes nothing)
         ctx.check(len(its) == len(want) and all(x is y for x, y in zip(its, want)), "C15.order",
                   f"update processes positional dicts left to right{', then the keywords' if kw_truthy == 0 else ''}", UPD,
                   f"item loops over {[short(x) for x in its]}",
@@ -160,7 +162,12 @@ def partition_obligations(ctx: Ctx) -> None:
         run.__dict__["o"] = (s, args, kw)
         return ({a.args[0].arg: s, a.args[1].arg: SObj("_name", {"STR"}), a.vararg.arg: args, "_add_ws": True, a.kwarg.arg: kw}, s)
 
-    for l in I.run_function(CORE, "Tag.__init__", mk, Config()):
+    leaves = I.run_function(CORE, "Tag.__init__", mk, Config())
+    loop_shape = any(_splat_carried(l.run.__dict__["o"][0].attrs.get("attrs")) is not None for l in leaves if l.kind == "return")
+    if loop_shape:
+        _partition_by_loops(ctx, leaves, where)
+        leaves = []
+    for l in leaves:
         if l.kind != "return":
             continue
         s, args, kw = l.run.__dict__["o"]
@@ -200,12 +207,66 @@ def partition_obligations(ctx: Ctx) -> None:
         d = items[0]
         okd = isinstance(d, SDict) and isinstance(d.__dict__.get("copy_of"), SObj) and (d.__dict__["copy_of"].meta.get("attr_of") or (None, None))[1] == "attrs" \
             and news and d.__dict__["copy_of"].meta["attr_of"][0] is news[0]
+        if not okd and isinstance(d, SDict) and not d.concrete:
+            # attrs = {}; for k, v in tag.attrs.items(): attrs[k] = v
+            from ..loopbuilt import contributions, iter_base
+            cs = contributions(l, d)
+            okd = len(cs) == 1 and cs[0]["how"] == "setitem" and cs[0]["loop"] is not None and isinstance(cs[0]["element"], SList) \
+                and cs[0]["key"] is cs[0]["element"].items[0] and cs[0]["value"] is cs[0]["element"].items[1] \
+                and isinstance(iter_base(cs[0]["iter"]), SObj) and (iter_base(cs[0]["iter"]).meta.get("attr_of") or (None, None))[1] == "attrs" \
+                and news and iter_base(cs[0]["iter"]).meta["attr_of"][0] is news[0]
         ctx.check(bool(okd), "C15.consolidate", "first result is dict(tag.attrs)", w2, f"attrs result {short(d)}",
                   f"the attributes returned are {short(d)}, not a plain dict copy of the throwaway tag's attrs")
         c = items[1]
         okc = isinstance(c, SList) and c.mode == "view" and c.base is args and c.kinds == (ALL_KINDS - DICT_KINDS)
+        if not okc and isinstance(c, SList) and c.mode == "carried":
+            from ..loopbuilt import contributions, iter_base
+            cs = contributions(l, c)
+            okc = all(x["how"] == "append" and x["loop"] is not None and iter_base(x["iter"]) is args and x["value"] is x["element"]
+                      and isinstance(x["element"], SObj) and not (x["element"].kinds & DICT_KINDS) for x in cs)
+            # (the complementary path, on which a dict argument is skipped, appends nothing)
+            el = [r.__dict__.get("element") for r in l.run.loops if iter_base(r.iter_value) is args]
+            okc = okc and bool(el) and (bool(cs) or all(isinstance(e, SObj) and e.kinds <= DICT_KINDS for e in el))
         ctx.check(okc, "C15.consolidate", "second result is the non-dict arguments, filtered by the same predicate as Tag.__init__", w2,
                   f"children result {short(c)}", f"the children returned are {short(c)}: not exactly the arguments Tag() does not treat as attribute dicts")
+
+
+def _splat_carried(v: Any) -> Any:
+    """`Cls(*lst, ...)` where lst is a list built by a loop."""
+    if isinstance(v, SNew) and len(v.star) == 1 and isinstance(v.star[0], SList) and v.star[0].mode == "carried" and not v.args:
+        return v.star[0]
+    return None
+
+
+def _partition_by_loops(ctx: Ctx, leaves: List[Any], where: str) -> None:
+    """Tag.__init__ written with explicit loops: per kind of a positional argument, which list receives it."""
+    from ..loopbuilt import contributions, iter_base
+    seen_attr: set = set()
+    seen_kid: set = set()
+    for l in leaves:
+        if l.kind != "return":
+            continue
+        s, args, kw = l.run.__dict__["o"]
+        at, ch = s.attrs.get("attrs"), s.attrs.get("children")
+        la, lc = _splat_carried(at), _splat_carried(ch)
+        ctx.check(la is not None and isinstance(at, SNew) and at.cls_name == "TagAttrDict" and len(at.dstar) == 1 and at.dstar[0] is kw and lc is not None
+                  and isinstance(ch, SNew) and ch.cls_name == "TagList", "C15.partition",
+                  "attrs = TagAttrDict(*<dict arguments>, **kwargs) and children = TagList(*<other arguments>)", where,
+                  f"attrs={short(at)} children={short(ch)}", "Tag.__init__ does not build attrs/children from two argument lists")
+        if la is None or lc is None:
+            continue
+        for lst, is_attr in ((la, True), (lc, False)):
+            for c in contributions(l, lst):
+                good = c["how"] == "append" and c["loop"] is not None and iter_base(c["iter"]) is args and c["value"] is c["element"]
+                el = c["element"]
+                ks = frozenset(el.kinds) if isinstance(el, SObj) else frozenset()
+                good = good and (ks <= DICT_KINDS if is_attr else not (ks & DICT_KINDS))
+                ctx.check(good, "C15.partition", f"{'dict' if is_attr else 'non-dict'} arguments go, unchanged and in order, to the {'attribute' if is_attr else 'child'} list",
+                          where, f"{'attrs' if is_attr else 'children'} list receives {short(c['value'])} for kinds {sorted(ks)[:4]}",
+                          f"the {'attribute' if is_attr else 'child'} list receives {short(c['value'])} for an argument of kind {sorted(ks)[:4]}: arguments are not partitioned by isinstance(x, dict)")
+                (seen_attr if is_attr else seen_kid).update(ks)
+    ctx.check(seen_attr >= DICT_KINDS and seen_kid >= (ALL_KINDS - DICT_KINDS), "C15.partition", "every argument kind lands in exactly one of the two lists", where,
+              f"attr kinds {sorted(seen_attr)[:4]}.. child kinds {len(seen_kid)}", "some kind of positional argument is dropped by Tag.__init__")
 
 
 def check(ctx: Ctx) -> None:
